@@ -62,7 +62,7 @@ type c15Dir struct {
 	anyAcc   [2]bool
 	pending  []*c15Sealed
 	done     []*c15Sealed
-	prevKey  string
+	keyOf    map[int]string // sender's out key per key epoch
 	lastSeq  [2]uint32
 	wrapped  bool
 }
@@ -192,8 +192,11 @@ func TestC15Rollover(t *testing.T) {
 				if prio {
 					c.Fatalf("sealing a priority frame rolled the key over")
 				}
+				if d.keyOf == nil {
+					d.keyOf = map[int]string{}
+				}
+				d.keyOf[d.epochS] = before
 				d.epochS++
-				d.prevKey = before
 				d.wrapped = true
 				if seq != 1 {
 					c.Fatalf("dir%d: first regular frame after the wrap has number %d, want 1", di, seq)
@@ -278,7 +281,9 @@ func TestC15Rollover(t *testing.T) {
 					if in != x.key {
 						c.Fatalf("dir%d: after the wrap receiver in-key differs from the sender's out-key", x.dir)
 					}
-					if in == d.prevKey {
+					// (compared with the key of the epoch before the frame's: the sender
+					// may have wrapped a second time before the receiver follows the first)
+					if prev, ok := d.keyOf[x.epoch-1]; ok && in == prev {
 						c.Fatalf("dir%d: key did not change at the wrap", x.dir)
 					}
 				}
@@ -309,7 +314,26 @@ func TestC15Rollover(t *testing.T) {
 
 		n := c.Int("ops", 4, 120)
 		for i := 0; i < n; i++ {
-			switch c.Weighted("op", 0, 30, 12, 40, 8, 4, 8, 3, 3) {
+			switch c.Weighted("op", 0, 30, 12, 40, 8, 4, 8, 3, 3, 3) {
+			case 9: // a key exchange is started on a live session (the router dials the other one: its own share is generated) and is not completed (yet)
+				di := c.Pick("kxstart.dir", 2)
+				d := dirs[di]
+				which, enc := "sender", d.sendE
+				if c.Bool("kxstart.receiver") {
+					which, enc = "receiver", d.recvE
+				}
+				before := hex.EncodeToString(d.sendH.OutKey())
+				if _, _, err := enc.InitKeyClientStart(); err != nil {
+					c.Fatalf("starting a key exchange: %v", err)
+				}
+				if hex.EncodeToString(d.sendH.OutKey()) != before {
+					c.Fatalf("starting a key exchange changed the out key")
+				}
+				if c.Bool("kxstart.cleanup") {
+					enc.InitCleanup() // the link setup failed or ended: exchange keys dropped
+				}
+				ops = append(ops, fmt.Sprintf("key exchange started (own share only) at dir%d %s", di, which))
+				c.Class("history-with-a-key-exchange-started-and-left-open")
 			case 1:
 				seal(c.Pick("seal.dir", 2), false)
 			case 2:
